@@ -293,6 +293,12 @@ func buildReplayDesc(kc *kernelCtx, b *Block) *ReplayDesc {
 			d.Requires = append(d.Requires, tr.expr(ex))
 		}
 	}
+	if len(sp.Track) > 0 || len(sp.Alias) > 0 {
+		// the contract speaks about more than the downstream notifications of one subscription (attempt loops, nested
+		// subscriptions, timers): the script harness cannot play it
+		d.Interp = false
+		d.Why = "the contract tracks events other than downstream notifications"
+	}
 	cases := append([]opCase{}, sp.Cases...)
 	have := map[string]bool{}
 	for _, c := range cases {
